@@ -20,8 +20,14 @@ func (p *Parser) isTokenMatch(keyword string) bool {
 	if p.currentIsLiteralToken() {
 		return false
 	}
-	// Check if token literal matches the keyword (case-insensitive)
-	return strings.EqualFold(p.currentToken.Literal, keyword)
+	// Check if token literal matches the keyword (case-insensitive). Keywords
+	// are ASCII: a word spelled with U+212A (Kelvin sign) or U+017F only folds
+	// to one and is a name.
+	lit := p.currentToken.Literal
+	if len(lit) != len(keyword) {
+		return false
+	}
+	return strings.EqualFold(lit, keyword)
 }
 
 // currentIsLiteralToken reports whether the current token is a literal or a
